@@ -820,6 +820,33 @@ def verdict_cases(tier):
     return out
 
 
+def pl_depth_relation_case(v, N, opts):
+    """the same schema and frame validated under SCHEMA_ONLY, DATA_ONLY and SCHEMA_AND_DATA: full depth accepts exactly when both
+    restricted validations accept; every outcome stays in the documented channel.  The int column b may arrive as Float64 with NaN
+    cells and be coerced (a NaN cannot become an integer: a data-level failure)."""
+    lazyframe = bool(opts.get("lazyframe"))
+    b_float = bool(opts.get("b_float"))
+    df = v.plframe([("a", "float"), ("b", "float" if b_float else "int")], N, lazy=lazyframe, nan=b_float)
+    lo = v.int("aA")
+    nullable = v.bool("nullable")
+    with warnings.catch_warnings():
+        warnings.simplefilter("ignore")
+        schema = ppl.DataFrameSchema({"a": ppl.Column(float, Check.ge(lo), nullable=nullable), "b": ppl.Column(int, nullable=True, coerce=(opts.get("coerce") == "col"))},
+                                     coerce=(opts.get("coerce") == "schema"))
+    outs = {}
+    for tag, depth in (("SO", ValidationDepth.SCHEMA_ONLY), ("DO", ValidationDepth.DATA_ONLY), ("SAD", ValidationDepth.SCHEMA_AND_DATA)):
+        def run(depth=depth):
+            with config_context(validation_depth=depth):
+                out = schema.validate(df, lazy=bool(opts.get("lazy")))
+                # where data-level validation was requested, a LazyFrame result must also be collectable
+                return out.collect() if (lazyframe and depth != ValidationDepth.SCHEMA_ONLY) else out
+        outs[tag] = H.outcome(run)
+    acc = {k: o["kind"] == "accept" for k, o in outs.items()}
+    asserts = [("depth/full_iff_both_parts", v.holds(acc["SAD"] == (acc["SO"] and acc["DO"]))),
+               ("channel", v.holds(all(channel_ok(o) for o in outs.values())))]
+    return dict(obs=None, asserts=asserts, facts={k: o["kind"] for k, o in outs.items()})
+
+
 def depth_cases(tier):
     """C18 on polars: explicit SCHEMA_ONLY / DATA_ONLY / SCHEMA_AND_DATA and the container-dependent default"""
     out = []
@@ -833,6 +860,9 @@ def depth_cases(tier):
         out.append((_tid("DEPTH", ["a", "b", "x"], N, o), pl_frame_case, (["a", "b", "x"], N, o)))
         o = dict(oracle=True, lazyframe=lazyframe, lazy=True, fixpoint=False)
         out.append((_tid("DEPTH", ["a", "b"], N, o), pl_frame_case, (["a", "b"], N, o)))
+        for o in (dict(), dict(coerce="col", b_float=True), dict(coerce="schema", b_float=True), dict(coerce="col", b_float=True, lazy=True)):
+            oo = dict(o, lazyframe=lazyframe)
+            out.append((f"PL/DEPTHREL/" + ("/".join(f"{k}={x}" for k, x in oo.items())) + f"/N={N}", pl_depth_relation_case, (N, oo)))
     return out
 
 
